@@ -87,29 +87,52 @@ Proof.
   destruct (1 <? length ms)%nat; [reflexivity|]. destruct ms; reflexivity.
 Qed.
 
-(* ---- read on a file-like source, __next__ on an iterator, close on both *)
-Theorem gen_read_equiv w s size :
-  gen_read I eat complete fmatch fsrc f_read w s size =
-  let '(w', s', tr, inp, o) := w_read I eat finish complete fmatch gen_shape w s size in (w', s', out_res o).
+(* ---- read / __next__ over ANY source: its read()/next() may raise any exception, at any call.
+   read lets every exception through untouched; __next__ finishes the inspectors on
+   StopIteration ONLY - the lemma distinguishes the class that is caught. *)
+Theorem gen_read_equiv (Src : Type) (src_read : Src -> Z -> Src * res bytes) w s size :
+  gen_read I eat complete fmatch Src src_read w s size =
+  let '(w', s', tr, inp, o) := w_read_on I eat finish complete fmatch gen_shape Src src_read w s size in (w', s', out_res o).
 Proof.
-  unfold gen_read, w_read. destruct (f_read s size) as [s1 r] eqn:Hr.
-  assert (Hcase : (exists c, r = Ok c) \/ r = Exn ValueError).
-  { unfold f_read in Hr. destruct (f_closed s); inversion Hr; eauto. }
-  destruct Hcase as [(c & ->)| ->]; cbn [src_input w_step].
+  unfold gen_read, w_read_on. destruct (src_read s size) as [s1 r]. destruct r as [c|e]; cbn [src_input_read w_step].
   - rewrite gen_process_chunk_equiv. destruct (process_chunk I eat complete fmatch gen_shape w c) as [[w1 tr] r1].
     destruct r1; reflexivity.
   - reflexivity.
 Qed.
 
-Theorem gen_next_equiv w s :
+Theorem gen_next_equiv (Src : Type) (src_next : Src -> Src * res bytes) w s :
+  gen_next I eat finish complete fmatch Src src_next w s =
+  let '(w', s', tr, inp, o) := w_next_on I eat finish complete fmatch gen_shape Src src_next w s in (w', s', out_res o).
+Proof.
+  unfold gen_next, w_next_on. destruct (src_next s) as [s1 r]. destruct r as [c|e].
+  - cbn [src_input w_step]. rewrite gen_process_chunk_equiv.
+    destruct (process_chunk I eat complete fmatch gen_shape w c) as [[w1 tr] r1]. destruct r1; reflexivity.
+  - destruct e; cbn [src_input w_step]; rewrite ?gen_finish_equiv; reflexivity.
+Qed.
+
+(* the concrete sources of the theorems are instances *)
+Lemma w_read_is_on w s size :
+  w_read I eat finish complete fmatch gen_shape w s size = w_read_on I eat finish complete fmatch gen_shape fsrc f_read w s size.
+Proof.
+  unfold w_read, w_read_on. destruct (f_read s size) as [s1 r] eqn:Hr.
+  assert (Hcase : (exists c, r = Ok c) \/ r = Exn ValueError).
+  { unfold f_read in Hr. destruct (f_closed s); inversion Hr; eauto. }
+  destruct Hcase as [(c & ->)| ->]; reflexivity.
+Qed.
+
+Lemma w_next_is_on w s :
+  w_next I eat finish complete fmatch gen_shape w s = w_next_on I eat finish complete fmatch gen_shape isrc i_next w s.
+Proof. reflexivity. Qed.
+
+Theorem gen_read_file_equiv w s size :
+  gen_read I eat complete fmatch fsrc f_read w s size =
+  let '(w', s', tr, inp, o) := w_read I eat finish complete fmatch gen_shape w s size in (w', s', out_res o).
+Proof. rewrite gen_read_equiv, w_read_is_on. reflexivity. Qed.
+
+Theorem gen_next_iter_equiv w s :
   gen_next I eat finish complete fmatch isrc i_next w s =
   let '(w', s', tr, inp, o) := w_next I eat finish complete fmatch gen_shape w s in (w', s', out_res o).
-Proof.
-  unfold gen_next, w_next, i_next. destruct (i_chunks s) as [|c rest]; cbn [src_input w_step].
-  - rewrite gen_finish_equiv. reflexivity.
-  - rewrite gen_process_chunk_equiv. destruct (process_chunk I eat complete fmatch gen_shape w c) as [[w1 tr] r1].
-    destruct r1; reflexivity.
-Qed.
+Proof. rewrite gen_next_equiv, w_next_is_on. reflexivity. Qed.
 
 Theorem gen_close_file_equiv w s :
   gen_close I finish fsrc (fun _ => true) f_close w s = (fst (w_close_f I finish w s), snd (w_close_f I finish w s), Ok tt).
@@ -144,7 +167,7 @@ Lemma gen_detect_loop_equiv : forall fuel w s,
   (let '(w', s', tr, r) := detect_loop I eat finish complete fmatch gen_shape raw_lit_nonraw raw_lit_raw fuel detect_chunk_size w s in (w', s', r)).
 Proof.
   induction fuel as [|k IH]; intros w s; [reflexivity|].
-  cbn [gen_detect_loop1 detect_loop]. change (4096%Z) with detect_chunk_size. rewrite gen_read_equiv.
+  cbn [gen_detect_loop1 detect_loop]. change (4096%Z) with detect_chunk_size. rewrite gen_read_file_equiv.
   destruct (w_read I eat finish complete fmatch gen_shape w s detect_chunk_size) as [[[[w1 s1] tr1] inp] o].
   destruct o as [c|e|]; cbn [out_res]; [|reflexivity|reflexivity].
   destruct c as [|x t]; [reflexivity|]. cbn [is_nil negb]. rewrite gen_format_equiv. unfold format_name.
